@@ -87,7 +87,7 @@ def space(tier):
     # folds of folds: a folded unary / binary result as an operand of another fold
     S2 = [t for t in S if t in ("0", "1", "0U", "1U", "4294967295U", "0xffffffff", "2147483647", "4294967295", "0LL", "18446744073709551615U", "0xffffffffffffffff")] or S[:6]
     if tier == "thorough":
-        S2 = S[::2]
+        S2 = S[::4]
     S2 = S2 + [t for t in ("2", "2U", "6", "4LL") if t not in S2]  # values with exact quotients other than by 1
     for x in S2:
         for y in S2:
@@ -95,7 +95,7 @@ def space(tier):
                 for op in ("<", ">", "==", "!=", "+", "*", "-", "/", "%", "<=", ">="):
                     out.append(P(R64, "r = %s%s %s %s;" % (u, x, op, y), ["r"], tag=("fold2-un", u, x, op, y)))
                     out.append(P(R64, "r = %s %s %s%s;" % (y, op, u, x), ["r"], tag=("fold2-un-r", u, x, op, y)))
-            for z in S2[:: (1 if tier == "thorough" else 2)]:
+            for z in S2[::2]:
                 for o1 in ("+", "-", "*"):
                     for o2 in ("<", "==", ">=", "+"):
                         out.append(P(R64, "r = (%s %s %s) %s %s;" % (x, o1, y, o2, z), ["r"], tag=("fold2-bin", x, o1, y, o2, z)))
